@@ -37,6 +37,7 @@ KINDS = ("bare", "exact", "super", "wrong", "two")
 WRONG_CANDIDATES = ("truthy-iterable", "str-bytes-safe", "unused-awaitable", "typeddict-unknown-key", "exit-return")
 MAIN = "main"
 Q_FILES = 12
+Q_ANCHORS = ("check-errorcodes.test", "check-ignore.test")  # always in the quick slice: the densest ignore/unused-ignore inputs
 Q_PER_FILE = 70
 BATCH = 6
 MAX_FULL_SUBSETS = 5
@@ -616,7 +617,9 @@ def select_programs(ctx: Ctx) -> tuple[list[dict], dict]:
     files = corpus.files_matching("check-*.test")
     info: dict[str, Any] = {"corpus_files_total": len(files)}
     if ctx.quick:
-        files = sorted(seeded_order(files, ctx.seed + 1)[:Q_FILES])
+        anchors = [f for f in files if os.path.basename(f) in Q_ANCHORS]
+        rest = [f for f in seeded_order(files, ctx.seed + 1) if f not in anchors]
+        files = sorted(anchors + rest[: Q_FILES - len(anchors)])
     skipped: Counter = Counter()
     progs = []
     for f in files:
@@ -680,7 +683,7 @@ def run(ctx: Ctx) -> Result:
         "bounds": {"subset_rule": f"all subsets when <= {MAX_FULL_SUBSETS} annotatable error lines, else size<=2 + full set",
                    "kinds": list(KINDS), "warn_unused_ignores": ["off", "on"],
                    "disable_variants": ["disable", "disable+enable", "disable-super", "per-module"],
-                   "quick_slice": f"{Q_FILES} seed-selected files, first {Q_PER_FILE} usable cases each" if ctx.quick else "all files"},
+                   "quick_slice": f"{Q_FILES} files ({len(Q_ANCHORS)} fixed + seed-selected), first {Q_PER_FILE} usable cases each" if ctx.quick else "all files"},
         "samples": samples[:3],
         "counters": dict(sorted(stats.items())),
         **info,
